@@ -36,10 +36,6 @@ def fftshiftIdx (n k : Nat) : Nat := (k + n - n / 2) % n
 /-- numpy `ifftshift` along an axis of length `n`: `out[k] = x[(k + n/2) mod n]` -/
 def ifftshiftIdx (n k : Nat) : Nat := (k + n / 2) % n
 
-/-- numpy `fftfreq(n, 1/n)[a]`: signed integer frequency of slot `a` -/
-def signedFreq (n a : Nat) : Int :=
-  if a < (n + 1) / 2 then (a : Int) else (a : Int) - (n : Int)
-
 /-- index in the full spectrum (length `N`) that ends up in slot `a` of the
 truncated, un-shifted spectrum (length `nl`, offset `d`):
 `ifftshift(fftshift(F)[d : d+nl])[a] = F[truncSrc N nl d a]` -/
